@@ -26,7 +26,7 @@ EXIT_OK, EXIT_VIOLATION, EXIT_INCONCLUSIVE = 0, 1, 3
 
 
 class Case:
-    def __init__(self, name, fn, params=None, max_paths=20000, timeout_s=600, solver_timeout_ms=240000, note=""):
+    def __init__(self, name, fn, params=None, max_paths=20000, timeout_s=1800, solver_timeout_ms=240000, note=""):
         self.name = name
         self.fn = fn                  # name of a top-level function in the check module
         self.params = params or {}
